@@ -202,6 +202,13 @@ class Equation:
             # Construct the term payloads
             term_payloads = []
             for term in inputs:
+                # The leader of a leader-follower intersection is passed
+                # first, so its payload also comes first
+                leader = self.__get_leader(rank)
+                if leader is not None:
+                    term = [factor for factor in term if factor.root_name() == leader] + \
+                        [factor for factor in term if factor.root_name() != leader]
+
                 payload = PVar(term[-1].fiber_name())
                 for factor in reversed(term[:-1]):
                     payload = PTuple([PVar(factor.fiber_name()), payload])
@@ -410,6 +417,24 @@ class Equation:
         trans_fn = AParam("trans_fn", ELambda(["i", "c", "p"], int_test))
 
         return EMethod(project, "prune", [trans_fn])
+
+    def __get_leader(self, rank: str) -> Optional[str]:
+        """
+        Get the leader tensor if this rank uses leader-follower intersection
+        """
+        if self.metrics is None:
+            return None
+
+        intersector = self.metrics.get_coiter(rank)
+        if not isinstance(intersector, LeaderFollowerComponent):
+            return None
+
+        einsum = self.program.get_equation().get_output().root_name()
+        for binding in intersector.get_bindings()[einsum]:
+            if binding["rank"] == rank:
+                return binding["leader"]
+
+        return None
 
     def __make_input_iter_expr(
             self,
